@@ -1,6 +1,7 @@
 import ShmVerif.Gen.Consts
 import ShmVerif.Gen.Skel
 import ShmVerif.Model.FreeListC
+import ShmVerif.Tie.BufMgr
 /-! Tie 1 for C01/C02: the facts of buffer_manager.go / buffer_slice.go the model `FreeListC` relies on,
     re-checked against the regenerated `Gen` on every run. -/
 namespace Tie.C01
@@ -229,112 +230,7 @@ theorem tie_skel_bufferManager_recycleBuffers : Gen.Skel.bufferManager_recycleBu
 
 /-! creation of the share memory is exclusive (a second creator on a live path would re-initialise owned buffers) -/
 
-theorem tie_skel_getGlobalBufferManager : Gen.Skel.getGlobalBufferManager = [
-  "func getGlobalBufferManager(shmPath string, capacity uint32, create bool, pairs []*SizePercentPair) (*bufferManager, error) {",
-  "bufferManagers.Lock()",
-  "defer bufferManagers.Unlock()",
-  "if bm, ok := bufferManagers.bms[shmPath]; ok {",
-  "atomic.AddInt32(&bm.refCount, 1)",
-  "return bm, nil",
-  "}",
-  "_ = os.MkdirAll(filepath.Dir(shmPath), os.ModePerm)",
-  "var (",
-  "shmFile *os.File",
-  "err error",
-  ")",
-  "if create {",
-  "if !canCreateOnDevShm(uint64(capacity), shmPath) {",
-  "return nil, fmt.Errorf(\"err:%s path:%s, size:%d\", ErrShareMemoryHadNotLeftSpace.Error(), shmPath, capacity)",
-  "}",
-  "shmFile, err = os.OpenFile(shmPath, os.O_CREATE|os.O_RDWR|os.O_EXCL, os.ModePerm)",
-  "if err != nil {",
-  "return nil, err",
-  "}",
-  "if err := shmFile.Truncate(int64(capacity)); err != nil {",
-  "return nil, fmt.Errorf(\"getGlobalBufferManager truncate share memory failed,%s\", err.Error())",
-  "}",
-  "} else {",
-  "shmFile, err = os.OpenFile(shmPath, os.O_RDWR, os.ModePerm)",
-  "if err != nil {",
-  "return nil, err",
-  "}",
-  "fi, err := shmFile.Stat()",
-  "if err != nil {",
-  "return nil, fmt.Errorf(\"getGlobalBufferManager mapping failed,%s\", err.Error())",
-  "}",
-  "capacity = uint32(fi.Size())",
-  "}",
-  "defer shmFile.Close()",
-  "mem, err := syscall.Mmap(int(shmFile.Fd()), 0, int(capacity), syscall.PROT_READ|syscall.PROT_WRITE, syscall.MAP_SHARED)",
-  "if err != nil {",
-  "return nil, err",
-  "}",
-  "var bm *bufferManager",
-  "if create {",
-  "sort.Sort(sizePercentPairs(pairs))",
-  "bm, err = createBufferManager(pairs, shmPath, mem, 0)",
-  "} else {",
-  "bm, err = mappingBufferManager(shmPath, mem, 0)",
-  "}",
-  "if err != nil {",
-  "_ = syscall.Munmap(mem)",
-  "return nil, err",
-  "}",
-  "bufferManagers.bms[shmPath] = bm",
-  "return bm, nil",
-  "}"] := by rfl
-
-theorem tie_skel_getGlobalBufferManagerWithMemFd : Gen.Skel.getGlobalBufferManagerWithMemFd = [
-  "func getGlobalBufferManagerWithMemFd(bufferPathName string, memFd int, capacity uint32, create bool,",
-  "pairs []*SizePercentPair) (*bufferManager, error) {",
-  "bufferManagers.Lock()",
-  "defer bufferManagers.Unlock()",
-  "if bm, ok := bufferManagers.bms[bufferPathName]; ok {",
-  "atomic.AddInt32(&bm.refCount, 1)",
-  "if memFd > 0 && !create {",
-  "_ = syscall.Close(memFd)",
-  "}",
-  "return bm, nil",
-  "}",
-  "var (",
-  "bm *bufferManager",
-  "err error",
-  ")",
-  "if create {",
-  "memFd, err = MemfdCreate(bufferPathName, 0)",
-  "if err != nil {",
-  "return nil, fmt.Errorf(\"getGlobalBufferManagerWithMemFd MemfdCreate failed:%w\", err)",
-  "}",
-  "if err := syscall.Ftruncate(memFd, int64(capacity)); err != nil {",
-  "return nil, fmt.Errorf(\"getGlobalBufferManagerWithMemFd truncate share memory failed:%w\", err)",
-  "}",
-  "} else {",
-  "var fInfo syscall.Stat_t",
-  "err = syscall.Fstat(memFd, &fInfo)",
-  "if err != nil {",
-  "return nil, fmt.Errorf(\"getGlobalBufferManagerWithMemFd mapping failed:%w\", err)",
-  "}",
-  "capacity = uint32(fInfo.Size)",
-  "}",
-  "mem, err := syscall.Mmap(memFd, 0, int(capacity), syscall.PROT_READ|syscall.PROT_WRITE, syscall.MAP_SHARED)",
-  "if err != nil {",
-  "return nil, fmt.Errorf(\"getGlobalBufferManagerWithMemFd Mmap failed:%w\", err)",
-  "}",
-  "if create {",
-  "sort.Sort(sizePercentPairs(pairs))",
-  "bm, err = createBufferManager(pairs, bufferPathName, mem, 0)",
-  "} else {",
-  "bm, err = mappingBufferManager(bufferPathName, mem, 0)",
-  "}",
-  "if err != nil {",
-  "_ = syscall.Munmap(mem)",
-  "return nil, err",
-  "}",
-  "bm.memFd = memFd",
-  "bm.mmapMapType = MemMapTypeMemFd",
-  "bufferManagers.bms[bufferPathName] = bm",
-  "return bm, nil",
-  "}"] := by rfl
+/- `getGlobalBufferManager` and `getGlobalBufferManagerWithMemFd` are tied in `Tie.BufMgr` (shared with C03) -/
 
 theorem tie_skel_addGlobalBufferManagerRefCount : Gen.Skel.addGlobalBufferManagerRefCount = [
   "func addGlobalBufferManagerRefCount(path string, c int) {",
